@@ -21,7 +21,7 @@ Lossless(fmt, cs, off) ==
   LET K == Kinds(fmt) IN
      /\ (HasS(K, 89) \/ ((\E sp \in K : sp.kind = "E4Y") /\ WLe(W(-999), cs[1]) /\ WLe(cs[1], W(9999))))
      /\ \/ (HasS(K, 109) /\ (HasS(K, 100) \/ HasS(K, 101)))                 \* %m with %d | %e
-        \/ ((HasS(K, 85) \/ HasS(K, 87)) /\ (HasS(K, 117) \/ HasS(K, 119))) \* week number with weekday
+        \/ ((HasS(K, 85) \/ HasS(K, 87)) /\ (HasS(K, 117) \/ HasS(K, 119) \/ Conv(fmt, 97) \/ Conv(fmt, 65))) \* week number with weekday (number or name)
      /\ ((HasS(K, 72) \/ (Conv(fmt, 73) /\ Conv(fmt, 112))) /\ HasS(K, 77))   \* (%H | %I with %p, in either order) %M
      /\ \/ (\E sp \in K : sp.kind = "EstarS" \/ (sp.kind = "EnS" /\ sp.n >= 15))
         \/ (HasS(K, 83) /\ (\E sp \in K : sp.kind = "Estarf" \/ (sp.kind = "Enf" /\ sp.n >= 15)))
